@@ -391,11 +391,11 @@ func (c *Config) Slots(host string, qt uint16) (n int) {
 
 // Upstream answer shapes.
 const (
-	UpAddr    = iota // address records of the asked family (A for other types)
-	UpCNAME          // CNAME to a marker target, then addresses
-	UpHTTPS          // HTTPS record with address hints
-	UpNoData         // NOERROR, SOA in the authority section
-	UpNXDomain       // NXDOMAIN, SOA in the authority section
+	UpAddr     = iota // address records of the asked family (A for other types)
+	UpCNAME           // CNAME to a marker target, then addresses
+	UpHTTPS           // HTTPS record with address hints
+	UpNoData          // NOERROR, SOA in the authority section
+	UpNXDomain        // NXDOMAIN, SOA in the authority section
 	UpShapes
 )
 
